@@ -20,7 +20,11 @@ KINDS = {
     'M2': ('Matrix', (2, 2), 'float'), 'M3': ('Matrix', (3, 3), 'float'), 'R': ('Matrix3', (3, 3), 'float'),
     'Q': ('Quaternion', (4,), 'float'),
     'N': ('number', (), 'float'), 'Ni': ('number', (), 'int'), 'A': ('ndarray', (), 'float'),
+    'PL0': ('Polynomial', (1,), 'float'), 'PL1': ('Polynomial', (2,), 'float'), 'PL2': ('Polynomial', (3,), 'float'),
+    'PL3': ('Polynomial', (4,), 'float'),
 }
+CLS = dict(CLASSES)
+CLS['Polynomial'] = polymath.Polynomial
 
 
 def isz(o):
@@ -52,7 +56,7 @@ def build(o, share=None):
         mask = mk_mask(o['mask'], o['shape'])
     if vals.shape == ():
         vals = vals[()].item()
-    obj = CLASSES[cls](vals, mask)
+    obj = CLS[cls](vals, mask)
     if o.get('ro'):
         obj = obj.as_readonly()
     return obj
@@ -210,6 +214,46 @@ op('ucross', n=2, call=lambda a, b: a.ucross(b),
 op('with_norm', n=1, call=lambda a: a.with_norm(2.), fail=lambda v: (0, np.all(v[0] == 0, axis=-1)), ref=None)
 
 
+# peripheral-class operations (Vector3 / Pair / Matrix3 / Quaternion / Polynomial helpers): judged by the direct oracle
+# "result masked iff an operand element that broadcasts onto it is masked or the operation is invalid there"
+def _zero(v):
+    return np.all(v == 0, axis=-1)
+
+
+def _bz(*zs):
+    shp = np.broadcast_shapes(*[np.shape(z) for z in zs])
+    m = np.zeros(shp, dtype=bool)
+    for z in zs:
+        m = m | np.broadcast_to(z, shp)
+    return ('out', m)
+
+
+op('spin', n=3, call=lambda a, b, c: a.spin(b, c), fail=lambda v: _bz(_zero(v[1]), np.zeros(np.shape(v[2]), bool),
+                                                                       np.zeros(np.shape(v[0])[:-1], bool)), ref=None)
+op('sep', n=2, call=lambda a, b: a.sep(b), fail=lambda v: _bz(_zero(v[0]), _zero(v[1])), ref=None)
+op('cpm', n=1, call=lambda a: a.cross_product_as_matrix(), fail=None, ref=None)
+op('vector_scale', n=2, call=lambda a, b: a.vector_scale(b), fail=lambda v: (1, _zero(v[1])), ref=None)
+op('vector_unscale', n=2, call=lambda a, b: a.vector_unscale(b), fail=lambda v: (1, _zero(v[1])), ref=None)
+op('swapxy', n=1, call=lambda a: a.swapxy(), fail=None, ref=None)
+op('rot90', n=1, call=lambda a: a.rot90(), fail=None, ref=None)
+op('pangle', n=1, call=lambda a: a.angle(), fail=None, ref=None)
+op('longitude', n=1, call=lambda a: a.longitude(), fail=None, ref=None)
+op('latitude', n=1, call=lambda a: a.latitude(), fail=lambda v: (0, _zero(v[0])), ref=None)
+op('from_ra_dec_length', n=3, call=lambda a, b, c: Vector3.from_ra_dec_length(a, b, c), fail=None, ref=None)
+op('from_cylindrical', n=3, call=lambda a, b, c: Vector3.from_cylindrical(a, b, c), fail=None, ref=None)
+op('v3_from_scalars', n=3, call=lambda a, b, c: Vector3.from_scalars(a, b, c), fail=None, ref=None)
+op('rotate', n=2, call=lambda a, b: a.rotate(b), fail=None, ref=None)
+op('unrotate', n=2, call=lambda a, b: a.unrotate(b), fail=None, ref=None)
+op('conj', n=1, call=lambda a: a.conj(), fail=None, ref=None)
+op('q_from_parts', n=2, call=lambda a, b: Quaternion.from_parts(a, b), fail=None, ref=None)
+op('poly_eval', n=2, call=lambda a, b: a.eval(b), fail=None, ref=None)
+op('poly_add', n=2, call=lambda a, b: a + b, fail=None, ref=None)
+op('poly_sub', n=2, call=lambda a, b: a - b, fail=None, ref=None)
+op('poly_mul', n=2, call=lambda a, b: a * b, fail=None, ref=None)
+op('poly_neg', n=1, call=lambda a: -a, fail=None, ref=None)
+op('poly_deriv', n=1, call=lambda a: a.deriv(), fail=None, ref=None)
+op('eval_quadratic', n=4, call=lambda x, a, b, c: x.eval_quadratic(a, b, c), fail=None, ref=None)
+
 # in-place operators: the target is a fresh copy; the result IS the target
 import operator as _op
 INPLACE = {'iadd': ('add', _op.iadd), 'isub': ('sub', _op.isub), 'imul': ('mul', _op.imul), 'idiv': ('div', _op.itruediv),
@@ -264,6 +308,30 @@ def child(par, sel):
     return {'k': par['k'], 'shape': shape, 'v8': [int(x) for x in np.asarray(v).ravel()], 'mask': m}
 
 
+# ------------------------------------------------------------------ the CALLER's NumPy floating-point error state
+import contextlib
+
+
+@contextlib.contextmanager
+def ambient(state):
+    """None: NumPy's default state, untouched.  'ignore' | 'warn' | 'raise': the call runs inside
+    np.errstate(all=state); 'seterr-ignore': after a global np.seterr(all='ignore') (restored afterwards).
+    What polymath returns must not depend on it."""
+    if state is None:
+        yield
+    elif state.startswith('seterr-'):
+        old = np.seterr(all=state.split('-', 1)[1])
+        try:
+            yield
+        finally:
+            np.seterr(**old)
+    else:
+        with np.errstate(all=state):
+            yield
+
+
+AMBIENT = ['ignore', 'warn', 'raise', 'seterr-ignore']
+
 # ------------------------------------------------------------------ running the real code
 def run_real(case):
     """-> (result or None, exception or None, [warning category names])"""
@@ -282,7 +350,7 @@ def run_real(case):
         objs[1] = objs[0]
     if case.get('swap'):                      # reflected form: operands given in swapped order
         objs = objs[::-1]
-    with warnings.catch_warnings(record=True) as w:
+    with warnings.catch_warnings(record=True) as w, ambient(case.get('errstate')):
         warnings.simplefilter('always')
         try:
             r = spec['call'](*objs, **case.get('params', {}))
